@@ -186,6 +186,10 @@ def collect_scripts(rng, tier, rep):
             domain.project(geom[0] * geom[1], onto=basis, geometry=geom, degree=2 * deg)
             domain.locate(geom * [2., 1.], numpy.array([[.3, .3], [1.7, .9]]), eps=1e-10)
         scripts += [('fn:nel{}deg{}'.format(nel, deg), s) for s, g in cap.scripts]
+    # the hand written parallel loop of nutils: Topology._locate
+    import inspect
+    from nutils import topology
+    scripts.append(('topology.Topology._locate', inspect.getsource(topology.Topology._locate)))
     rep.extra['scripts_compile_s'] = round(time.time() - t0, 1)
     return scripts
 
@@ -371,8 +375,12 @@ def pad_nops(body):
     return out
 
 
-LOCATE_REC = dict(shared=[True, True], nlocks=0, locknames=[], alllocks=[],
-                  body=[dict(op='slot', arr=1, locks=[]), dict(op='slot', arr=2, locks=[])])
+def locate_rec():
+    """the loop of Topology._locate of the tree under test, exported like a generated script"""
+    import inspect
+    from nutils import topology
+    recs = c16_script.analyse(inspect.getsource(topology.Topology._locate))
+    return recs[0] if recs else None
 
 
 def build_episodes(sc, res, events, scripts, cache):
@@ -475,7 +483,9 @@ def build_episodes(sc, res, events, scripts, cache):
         # the loop body that ran
         rec = None
         if sc['kind'] == 'locate' and ep['call'] is None:
-            rec = LOCATE_REC
+            if 'locate' not in cache:
+                cache['locate'] = locate_rec()
+            rec = cache['locate']
         elif ep['call'] is not None:
             key = (ep['call']['sid'], ep['call']['branch'])
             if key not in cache:
